@@ -71,4 +71,10 @@ _c('C11', 'Proved: regenerated stop conditions are key<now; over ANY sorted file
    'Coq proof (reader window theorem over translated stop conditions + step-model admission/cancel lemmas); differential correspondence of reader windows; closed-form monitor over the real update pipeline',
    'Request file sorted; one addressing mode per price table (row order between different keys naming the same plug in one window is not defined by the property).')
 
+_c('C12', 'Proved for matrices of any size: cert_sound (weak LP duality for the rectangular assignment problem: if the executable checker accepts (sigma,u,w) no assignment of all rows to distinct columns is cheaper) '
+          'and, under scipy\'s documented contract, find_assignment\'s glue returns distinct vehicles x distinct requests drawn from the offered lists, min(n,m) of them. scipy is an oracle; its optimality is validated on every '
+          'generated instance by running the verified checker (vm_compute) on the real Dispatcher\'s answer with potentials from an independent Hungarian implementation. Eligibility filters are compared with an independent restatement (relational correspondence).',
+   'Coq proof of a certificate checker (LP duality) + glue validity under the library contract; per-instance certificate validation of the real Dispatcher; independent eligibility oracle',
+   'scipy.optimize.linear_sum_assignment is trusted only through per-instance certificates.')
+
 NOT_CLAIMED = {}
